@@ -217,8 +217,8 @@ func runC10(c *Ctx) {
 	smRun := need(c.P.Method("service", "sessionManager", "run"), "service.sessionManager.run")
 	aNew := need(c.P.Func("attachment", "newConnection"), "attachment.newConnection")
 	aRun := need(c.P.Method("attachment", "connection", "run"), "attachment.connection.run")
-	sRun := need(c.P.Method("service", "GoJT808", "Run"), "service.GoJT808.Run")
-	atRun := need(c.P.Method("attachment", "GoJT808", "Run"), "attachment.GoJT808.Run")
+	sRun := need(c.acceptLoopFunc("service"), "the function of service that accepts connections")
+	atRun := need(c.acceptLoopFunc("attachment"), "the function of attachment that accepts connections")
 	if sNew == nil || sReader == nil || sWrite == nil || smNew == nil || smRun == nil || aNew == nil || aRun == nil || sRun == nil || atRun == nil {
 		return
 	}
@@ -331,7 +331,7 @@ func runC10(c *Ctx) {
 	c.sessionRules(true)
 	// one handler table per accepted connection: a table shared by all connections is a Go map written by the accept
 	// loop while connection goroutines read it - the runtime aborts the whole process ("concurrent map read and map write")
-	if mk := c.P.Method("service", "GoJT808", "createDefaultHandle"); mk != nil {
+	if mk := c.NamedFunc("service", "createDefaultHandle"); mk != nil {
 		c.perConnectionHandlers(mk)
 	} else {
 		R.Fatal("anchor GoJT808.createDefaultHandle not found")
